@@ -117,6 +117,29 @@ def main():
                 a.reset()
             if not np.array_equal(y0, np.array([1.0, 0.0])) or consts != dict(k=1.5):
                 fail("caller-data-modified", method=name, span=span)
+    # reset() after a run in the *other* time direction, dense output kept: the re-run answers queries strictly inside its steps exactly as
+    # a freshly built system does (nothing about the direction of the earlier run survives in the dense output)
+    def osc(t, y, **kw):
+        return np.stack([y[1], -y[0]])
+    for first, second in (((0.0, -3.0), (0.0, 3.0)), ((0.0, 3.0), (0.0, -3.0))):
+        a = de.OdeSystem(osc, y0=np.array([1.0, 0.0]), t=first, dt=0.1, dense_output=True, rtol=1e-9, atol=1e-9)
+        cases += 1
+        try:
+            a.integrate()
+            a.reset()
+            a.tf = second[1]
+            a.integrate()
+            b = de.OdeSystem(osc, y0=np.array([1.0, 0.0]), t=second, dt=0.1, dense_output=True, rtol=1e-9, atol=1e-9)
+            b.integrate()
+        except Exception as e:
+            fail("history-raises", history="reverse-direction-after-reset", exc=repr(e)[:100])
+            continue
+        tb = np.asarray(b.t)
+        qs = 0.5 * (tb[:-1] + tb[1:])
+        if len(a.t) != len(b.t) or not np.array_equal(np.asarray(a.y), np.asarray(b.y)):
+            fail("rerun-after-reset-differs-from-fresh", history="reverse-direction-after-reset", n=len(a.t), nref=len(b.t))
+        elif max(float(np.max(np.abs(a.sol(float(q)) - b.sol(float(q))))) for q in qs) > 0.0 or float(np.max(np.abs(a.sol(qs) - b.sol(qs)))) > 0.0:
+            fail("dense-output-after-reset-differs-from-fresh", history="reverse-direction-after-reset", first=list(first), second=list(second))
     print(json.dumps(dict(cases=cases, failures=failures, bound="5 methods x 2 directions x {identical sequences, call at target, 3-way split, reset after 5 kinds of history}")))
 
 
